@@ -50,6 +50,9 @@ def build_partition(spec):
 
     r = core.rng_for("part", spec["seed"])
     d = {k: domain.gen_result(r, 1) for k in spec["keys"]}
+    if spec["keys"] and r.random() < 0.25:  # a partition nested inside a partition
+        inner = {"kind": r.choice(["mem", "disk"]), "keys": ["in1", "in 2"], "seed": spec["seed"] + 1}
+        d[spec["keys"][0]] = build_partition(inner)
     if spec["kind"] == "mem":
         return InMemoryPartition(d)
     p = OnDiskPartition()
